@@ -4,6 +4,23 @@ the code, which implementation-level oracle searches for a failing input when th
 GEN_POSE = ["GraphSlam/Generated/Pose*.lean"]
 
 PROPS = {
+    "C01": dict(
+        modules=["GraphSlam.Props.C01"],
+        theorem_files=["GraphSlam/Props/C01/*.lean"],
+        scan_files=["GraphSlam/Real/*.lean", "GraphSlam/Core/*.lean", "GraphSlam/Props/C10/*Core.lean", "GraphSlam/Props/C10/SE3Boxplus.lean"],
+        corr=[("harness.entry", "layer_a", dict(only=["Edge", "Pose", "Util"], quick=25, thorough=400))],
+        search=("search.entry", "c01"),
+        replay=("search.entry", "replay_jacobian"),
+        rule="translator validation: generated calc_error_* / calc_jacobians_* (and every pose definition they call) evaluated at Float vs "
+        "edge.calc_error() / edge.calc_jacobians() of real EdgeOdometry / EdgeLandmark objects on stratified inputs (all four pose types, "
+        "rotated and identity offsets, quaternions with w<0, w=0, near 180deg, angles near +-pi); non-trivial = definition has arguments",
+        assumptions=["real arithmetic (no rounding)", "SE(2) odometry: the final angular error is not on the wrap (the property's own exclusion)"],
+        technique="Lean 4 proof: chain rule (HasFDerivAt.comp) over pose-level derivative theorems; SE(2) by reflection with inner wraps eliminated",
+        level_text="16 theorems (odometry x {R2,R3,SE2,SE3}, landmark x {R2->R2,R3->R3,SE2->R2,SE3->R3}, each vertex): the matrix calc_jacobians() "
+        "returns, as regenerated from the current source, is the Frechet derivative at 0 of delta -> calc_error with the vertex replaced by pose [+] delta, "
+        "for all real poses/measurements/offsets. Translator validated against the real edge objects every run.",
+        level_note="Trusted: Lean kernel, Mathlib analysis, py2lean translator (validated at Float every run). Real arithmetic; float rounding of Jacobian entries not covered.",
+    ),
     "C10": dict(
         modules=["GraphSlam.Props.C10"],
         theorem_files=["GraphSlam/Props/C10/*.lean"] + GEN_POSE,
